@@ -513,11 +513,16 @@ func (g *gen) rewritePkgRefs(info *types.Info, node ast.Node) ast.Node {
 			if g.nameInFileScope(n) || inNewNames(n) {
 				return true
 			}
+			// Avoid picking a name that conflicts with other names visible in
+			// the scope that declares the identifier. (A function's parameters
+			// and the top-level names of its body share the scope recorded for
+			// its type, which has been left by the time the body is visited,
+			// so the stack of entered scopes is not enough.)
+			if _, other := obj.Parent().LookupParent(n, token.NoPos); other != nil {
+				return true
+			}
 			if len(scopeStack) > 0 {
-				// Avoid picking a name that conflicts with other names in the
-				// current scope.
-				_, obj := scopeStack[len(scopeStack)-1].LookupParent(n, token.NoPos)
-				if obj != nil {
+				if _, other := scopeStack[len(scopeStack)-1].LookupParent(n, token.NoPos); other != nil {
 					return true
 				}
 			}
